@@ -863,3 +863,56 @@ def rule_row_key_binding(S, res):
 def root_local_(b, o):
     from an import root_local
     return root_local(b, o)
+
+
+def rule_check_before_send(S, res, phases, cs):
+    """R2.9: data of a received message does not leave in a send before the checks demanded for that
+    message have run: a demanded check of label L is never reachable (ignoring loop back edges) from
+    a send whose payload is computed from components of L.  (Example: the labels selected by the
+    peers' masked inputs are sent only after the conflicting-mask test, otherwise a peer that
+    overrides an own wire receives both labels of that wire - their XOR is the global key.)"""
+    fg = S.fg
+    n = 0
+    bad = 0
+    for l, ob in OBL.items():
+        if ob["phase"] not in phases or not ob.get("need"):
+            continue
+        comps = {x for x in S.comp.get(l, {}) if x[0] != "F"}
+        if not comps:
+            continue
+        demanded = []
+        for name, need, count in ob["need"]:
+            demanded += [(name, c) for c in cs if l in c.labels and need <= c.ing]
+        if not demanded:
+            continue
+        fams = {c.body.owner for _n, c in demanded}
+        for s_ in S.send_sites:
+            if s_.body.owner not in fams or (s_.label and l in s_.label):
+                continue
+            b = s_.body
+            back = fg.backward(fg.operand_nodes(s_.bk, s_.term["args"][-1]), node_ok=lambda x: x[0] != "F" and fg.bodies[x[0]].owner == b.owner, local=True)
+            if not (set(back) & comps):
+                continue
+            n += 1
+            # forward reachability without back edges
+            succ = b.succ()
+            seen = {s_.block}
+            st = [s_.block]
+            while st:
+                x = st.pop()
+                for y in succ[x]:
+                    if y in seen or b.dominates(y, x):
+                        continue
+                    seen.add(y)
+                    st.append(y)
+            late = [(name, c) for name, c in demanded if c.bk == s_.bk and c.block in seen and c.block != s_.block]
+            inst = "%s|%s->%s" % (b.owner.rsplit("::", 1)[-1], l, "/".join(s_.label or ["?"]))
+            if late:
+                bad += 1
+                res.bad("R2.9", inst, "the payload of %r is computed from message %r, but the demanded check %s of that message runs only after the send: a value the check would have rejected has already left" % ("/".join(s_.label or ["?"]), l, late[0][0]), fl(s_.sp),
+                        key="R2.9|%s|%s|%s" % (b.owner.rsplit("::", 1)[-1], l, "/".join(s_.label or ["?"])))
+            else:
+                res.ok("R2.9", inst, fl(s_.sp), "sent after the demanded checks of %r" % l)
+    res.count("sends_computed_from_checked_messages", n)
+    if not bad and not n:
+        res.ok("R2.9", "engine", "", "no send payload is computed from a message with demanded checks")
